@@ -580,6 +580,37 @@ static void obs_fz0(const vnadata_t *vdp, const model_t *m, vf_result *r,
     }
 }
 
+/*
+ * read from inside the error callback: every getter over the dimensions the
+ * object reports at that moment (the sanitizers judge)
+ */
+static const vnadata_t *g_hook_vd;
+static void hook_touch(void)
+{
+    const vnadata_t *v = g_hook_vd;
+    volatile double sink = 0;
+    if (v == NULL)
+	return;
+    int rows = vnadata_get_rows(v), cols = vnadata_get_columns(v);
+    int nf = vnadata_get_frequencies(v);
+    int ports = rows > cols ? rows : cols;
+    if (rows < 0 || cols < 0 || nf < 0 || rows > 64 || cols > 64 || nf > 4096)
+	return;
+    for (int f = 0; f < nf; ++f) {
+	sink += vnadata_get_frequency(v, f);
+	for (int i = 0; i < rows; ++i)
+	    for (int j = 0; j < cols; ++j)
+		sink += creal(vnadata_get_cell(v, f, i, j));
+	if (vnadata_has_fz0(v))
+	    for (int p = 0; p < ports; ++p)
+		sink += creal(vnadata_get_fz0(v, f, p));
+    }
+    if (!vnadata_has_fz0(v))
+	for (int p = 0; p < ports; ++p)
+	    sink += creal(vnadata_get_z0(v, p));
+    (void)sink;
+}
+
 static void observe(const vnadata_t *vdp, const model_t *m, vf_result *r,
 	const char *pfx, int boundary)
 {
@@ -1107,8 +1138,12 @@ static void run_hist(int tier, const int *ops, int n, vf_result *r)
 	char fname[64];
 	snprintf(fname, sizeof(fname), "vnadata_%s", fn);
 	int nonempty = m.rows > 0 || m.cols > 0 || m.nf > 0;
+	g_hook_vd = vdp;
+	vf_errfn_hook = hook_touch;
 	apply(vdp, &m, ops[n - 1], &rc_i, &rc_m, what, sizeof(what));
 	int e = errno;
+	vf_errfn_hook = NULL;
+	g_hook_vd = NULL;
 	if (rc_m == -2) {
 	    vf_fail(r, "model-error", "reference dispatch has no function "
 		    "for %s", what);
